@@ -821,15 +821,21 @@ def pure_iteration(rep: Report):
                       QEn + ".<apply_left_rows>": k_left, QEn + ".<apply_right_cols>": k_right})
     contracts.update({HBm + "hessenbergize": k_hessenbergize, HBm + "check_hessenberg": k_check, TDm + "householder_matrix": k_house, SC + "_strictly_lower_max": k_lowmax})
     QI = SC + "quaternion_schur_pure_implicit"
-    variants = {QN: ({(QN, 0): Main(), (QN, 1): ShiftSub(), (QN, 2): QRSweep(), (QN, 3): ShiftAdd(), (QN, 4): Deflate()},
+    def at(rule, target, it_src, assigns=None):
+        """the loop a rule instance was written for (see interp: a restructured function makes the rule inapplicable, i.e. undecided)"""
+        rule.expects = {"target": target, "iter": it_src}
+        if assigns is not None:
+            rule.expects["assigns"] = set(assigns)
+        return rule
+    W_CL = ["sweep.establish.W_unitary", "sweep.establish.H_is_W_H0_WH", "sweep.preserve.W_unitary", "sweep.preserve.H_is_W_H0_WH"]
+    variants = {QN: ({(QN, 0): at(Main(), "k", "range(max_iter)"), (QN, 1): at(ShiftSub(), "i", "range(n)", {"R_work"}), (QN, 2): at(QRSweep(), "j", "range(n-1)"),
+                      (QN, 3): at(ShiftAdd(), "i", "range(n)", {"H"}), (QN, 4): at(Deflate(), "i", "range(1,n)")},
                      ["sweep.establish.Q_iter_unitary", "sweep.establish.R_work_is_Q_iter_times_shifted_H", "sweep.preserve.Q_iter_unitary", "sweep.preserve.R_work_is_Q_iter_times_shifted_H"]),
-                QI: ({(QI, 0): Main(), (QI, 1): ImplicitSweep(), (QI, 2): Deflate()},
-                     ["sweep.establish.W_unitary", "sweep.establish.H_is_W_H0_WH", "sweep.preserve.W_unitary", "sweep.preserve.H_is_W_H0_WH"]),
-                QUn: ({(QUn, 0): MainU(), (QUn, 2): ImplicitSweep(), (QUn, 3): Deflate()},
-                      ["sweep.establish.W_unitary", "sweep.establish.H_is_W_H0_WH", "sweep.preserve.W_unitary", "sweep.preserve.H_is_W_H0_WH"]),
-                QEn: ({(QEn, 0): MainE(), (QEn, 1): ScanDeflate(), (QEn, 3): ImplicitSweep(), (QEn, 4): MaxOnly()},
-                      ["sweep.establish.W_unitary", "sweep.establish.H_is_W_H0_WH", "sweep.preserve.W_unitary", "sweep.preserve.H_is_W_H0_WH", "main.preserve.window_end_stays_inside_the_matrix",
-                       "main.establish.window_end_inside_the_matrix"])}
+                QI: ({(QI, 0): at(Main(), "k", "range(max_iter)"), (QI, 1): at(ImplicitSweep(), "s", "range(0,n-1)"), (QI, 2): at(Deflate(), "i", "range(1,n)")}, W_CL),
+                QUn: ({(QUn, 0): at(MainU(), "k", "range(max_iter)"), (QUn, 2): at(ImplicitSweep(), "s", "range(0,n-1)"), (QUn, 3): at(Deflate(), "i", "range(i_start,n)")}, W_CL),
+                QEn: ({(QEn, 0): at(MainE(), "k", "range(max_iter)"), (QEn, 1): at(ScanDeflate(), None, "i>lo"), (QEn, 3): at(ImplicitSweep(), "s", "range(start,hi)"),
+                       (QEn, 4): at(MaxOnly(), "j", "range(lo+1,hi+1)")},
+                      W_CL + ["main.preserve.window_end_stays_inside_the_matrix", "main.establish.window_end_inside_the_matrix"])}
     todo = [(q_, m_, dict(shift_mode=m_)) for q_ in (QN, QI) for m_ in ("none", "rayleigh")]
     todo += [(QUn, f"{v_}.{'scheduled' if pre else 'trailing'}_shifts", dict(variant=v_, precompute_shifts=pre, aed_factor="sym")) for v_ in ("aed", "ds") for pre in (True, False)]
     todo += [(QEn, v_, dict(variant=v_, window="sym")) for v_ in ("aed_windowed", "francis_ds")]
@@ -1004,12 +1010,18 @@ def pure_entry_loops(rep: Report):
 
     QI = SC + "quaternion_schur_pure_implicit"
     arb = lambda nm: (lambda it, fr: fresh_q(nm, (fr.vars["n"], fr.vars["n"])))
-    cases = {QN: {(QN, 0): MainA(), (QN, 1): FunctionalInv(arrays={"R_work": sub_closed}, tag="pure.sub."),
-                  (QN, 2): HavocAll({"R_work": arb("Rw"), "Q_iter": arb("Qit")}),
-                  (QN, 3): FunctionalInv(arrays={"H": add_closed}, tag="pure.add."),
-                  (QN, 4): DeflRule(arrays={"H": defl_closed}, scalars={"max_sub": defl_max}, assume=defl_assume, tag="pure.defl.")},
-             QI: {(QI, 0): MainA(), (QI, 1): HavocAll({"H": arb("Hsw"), "Q_accum": arb("Qsw")}),
-                  (QI, 2): DeflRule(arrays={"H": defl_closed}, scalars={"max_sub": defl_max}, assume=defl_assume, tag="pure.defl.")}}
+    def at(rule, target, it_src, assigns=None):
+        rule.expects = {"target": target, "iter": it_src}
+        if assigns is not None:
+            rule.expects["assigns"] = set(assigns)
+        return rule
+    defl = lambda: DeflRule(arrays={"H": defl_closed}, scalars={"max_sub": defl_max}, assume=defl_assume, tag="pure.defl.")
+    cases = {QN: {(QN, 0): at(MainA(), "k", "range(max_iter)"), (QN, 1): at(FunctionalInv(arrays={"R_work": sub_closed}, tag="pure.sub."), "i", "range(n)", {"R_work"}),
+                  (QN, 2): at(HavocAll({"R_work": arb("Rw"), "Q_iter": arb("Qit")}), "j", "range(n-1)"),
+                  (QN, 3): at(FunctionalInv(arrays={"H": add_closed}, tag="pure.add."), "i", "range(n)", {"H"}),
+                  (QN, 4): at(defl(), "i", "range(1,n)")},
+             QI: {(QI, 0): at(MainA(), "k", "range(max_iter)"), (QI, 1): at(HavocAll({"H": arb("Hsw"), "Q_accum": arb("Qsw")}), "s", "range(0,n-1)"),
+                  (QI, 2): at(defl(), "i", "range(1,n)")}}
 
     def setup(I, ctx):
         (n,) = dims(ctx, "n")
